@@ -30,7 +30,7 @@ Profiles ==
 \* the same without the long latency
 Few == {p \in Profiles : \A x \in {"udp", "tcp"} : \A i \in 1..Len(Script(p, x)) : Script(p, x)[i].lat # 180}
 
-C(ta, n, st, srvs) == [T |-> 300, ta |-> ta, ct |-> 100, nconc |-> n, strategy |-> st, servers |-> srvs]
+C(ta, n, st, srvs) == [T |-> 300, ta |-> ta, ct |-> 100, cr |-> FALSE, nconc |-> n, strategy |-> st, servers |-> srvs]
 
 \* two servers, every strategy and degree of parallelism, stock and stricter per-attempt timeout
 MC_Two ==
@@ -75,6 +75,17 @@ SockProfiles ==
      S(TRUE, <<B("recvfail", 30)>>, <<>>)}
 MC_Sock == {C(300, n, "user", <<a, b>>) : n \in {1, 2}, a \in SockProfiles, b \in SockProfiles}
            \cup {C(300, 1, "user", <<a>>) : a \in SockProfiles}
+
+\* case randomisation on / off, servers (all reachable over TCP too) whose UDP replies mangle the letter case
+CaseProfiles ==
+    {S(TRUE, <<B("casemangle", 10)>>, <<B("answer", 30)>>),
+     S(TRUE, <<B("casemangle", 10)>>, <<B("io", 30)>>),
+     S(TRUE, <<B("casemangle", 10)>>, <<B("timeout", 0)>>),
+     S(TRUE, <<B("answer", 30)>>, <<B("answer", 30)>>),
+     S(FALSE, <<B("nx", 30)>>, <<B("nx", 30)>>),
+     S(TRUE, <<B("io", 30)>>, <<B("io", 30)>>)}
+MC_Case == {[C(300, n, "user", <<a, b>>) EXCEPT !.cr = cr] : cr \in BOOLEAN, n \in {1, 2}, a \in CaseProfiles, b \in CaseProfiles}
+           \cup {[C(300, 1, "user", <<a>>) EXCEPT !.cr = TRUE] : a \in CaseProfiles}
 
 \* one and four servers
 MC_One  == {C(ta, 1, "user", <<a>>) : ta \in {300, 120}, a \in Profiles}
